@@ -2,9 +2,13 @@
 
 
 def replay(cex):
-    if cex.get('func') != 'concrete':
+    if cex.get('func') not in ('concrete', 'concrete-shipped'):
         return None
     import harness.C18 as H
+    if cex.get('func') == 'concrete-shipped':
+        res = H.shipped_roundtrip()
+        bad = res.get('violation')
+        return dict(reproduced=bool(bad), signature='roundtrip:shipped', detail=res['detail'])
     res = H.validate('quick', 0)[0]
     bad = res.get('violation')
     return dict(reproduced=bool(bad), signature='roundtrip:concrete', detail=res['detail'])
